@@ -783,7 +783,12 @@ pub fn analyse(log: &[Rec], fams: &[Fam], meta: &Meta) -> Analysis {
             if dg_wire_sent[e] < ok_sends {
                 cx.fail(Fam::Progress, log.len(), "datagram-not-transmitted", format!("ep{e}: {ok_sends} datagrams accepted by send_datagram but only {} were put on the wire by the end of the run", dg_wire_sent[e]));
                 // (C11: an accepted datagram is lost only at a full receive buffer or when the connection ends - not at the sender)
+                // (simulator only: there the run reaches a quiescent point before anybody lets go of the connection; on real threads
+                // a loaded machine may not schedule the connection task before the peer's application ends the connection, and a
+                // datagram still queued then is lost to "the connection ends", which the statement allows)
+                if meta.sim {
                 cx.fail(Fam::Dgram, log.len(), "dgram-accepted-but-not-transmitted", format!("ep{e}: send_datagram accepted {ok_sends} datagrams, only {} Datagram frames were put on the wire although the connection stayed up until the application let go of it", dg_wire_sent[e]));
+                }
             }
             if dg_wire_sent[e] > ok_sends {
                 cx.fail(Fam::Dgram, log.len(), "refused-datagram-on-wire", format!("ep{e}: {} Datagram frames on the wire but only {ok_sends} sends were accepted", dg_wire_sent[e]));
